@@ -111,9 +111,13 @@ def gen_mol_spec(rng, cfg, small=False):
     else:
         spec = {'k': 'smi', 's': rng.choice(SMILES_POOL), 'edits': []}
         for _ in range(rng.choice([0, 0, 1, 1, 2, 3])):
-            kind = rng.choice(['charge', 'charge', 'iso', 'rad', 'b8', 'num', 'num', 'xy'])
+            kind = rng.choice(['charge', 'charge', 'iso', 'rad', 'b8', 'num', 'num', 'xy', 'many'])
+            if kind == 'many':
+                # more than eight labelled atoms of one kind in one record (property-block lines hold at most eight entries)
+                spec['edits'].append(['many', rng.choice(['iso', 'rad', 'chg4', 'chg']), rng.choice([7, 8, 9, 10, 15, 16, 17, 25]), rng.randrange(1000)])
+                continue
             if kind == 'xy':
-                spec['edits'].append(['xy', rng.randrange(128), rng.choice([-9999.9999, -1000.0, -0.0, 0.00004, 99999.9999, 12345.678, -0.00005, 1.5]),
+                spec['edits'].append(['xy', rng.randrange(128), rng.choice([-9999.9999, -1000.0, -0.0, 0.00004, 99999.9999, 12345.678, -0.00005, 1.5, 100000.0, -10000.5, 1234567.0]),
                                       rng.choice([-9999.9999, -123.4567, 0.0, 9999.5, 1e-9, 2.25])])
                 continue
             if kind == 'charge':
@@ -208,6 +212,19 @@ def build_mol(spec):
                 m._atoms[atoms[e[1] % len(atoms)]]._is_radical = True
             elif e[0] == 'xy':
                 m._atoms[atoms[e[1] % len(atoms)]].xy = (e[2], e[3])
+            elif e[0] == 'many':
+                rr = random.Random(e[3])
+                for n in rr.sample(atoms, min(len(atoms), e[2])):
+                    a = m._atoms[n]
+                    if e[1] == 'iso':
+                        isos = sorted(a.isotopes_distribution)
+                        a._isotope = rr.choice(isos)
+                    elif e[1] == 'rad':
+                        a._is_radical = True
+                    elif e[1] == 'chg4':
+                        a._charge = rr.choice([-4, 4])
+                    else:
+                        a._charge = rr.choice([-3, -2, -1, 1, 2, 3])
             elif e[0] == 'b8':
                 n, k = atoms[e[1] % len(atoms)], atoms[e[2] % len(atoms)]
                 if n != k and k not in m._bonds[n]:
